@@ -127,12 +127,84 @@ def _b_cases(tier):
 
 
 def cases(tier):
+    for g in sorted(H_GEOMS):
+        yield Case("H:start=%s" % g, {"kind": "H", "start": g, "depth": 6 if tier == "quick" else 8})
+    for c in _cases_ab(tier):
+        yield c
+
+
+def _cases_ab(tier):
     for f in _families(tier):
         N = len(family(f))
         for c in range((N + CHUNK - 1) // CHUNK):
             yield Case("A:%s:chunk=%d" % (f, c), {"kind": "A", "family": f, "chunk": c})
     for b in _b_cases(tier):
         yield Case("B:%s/%s+%s/%s/%s:dup@%d" % (b[0], b[1], b[3], b[2], b[4], b[5]), {"kind": "B", "b": list(b)})
+
+
+# ----------------------------------------------------------------------------- call histories on one object
+# (added after a seeded change showed that the wrapper can carry state between calls: a reconstructor memoised
+#  per conditioning value survived a rebuild of the covariance matrix)
+
+H_GEOMS = {
+    "g0": dict(gspos=[[0., 0.], [0., 0.], [20., -10.]], alts=[0., 8000.]),
+    "g1": dict(gspos=[[0., 0.], [0., 0.], [-15., 25.]], alts=[0., 12000.]),
+}
+H_OPS = ["geom:g0", "geom:g1", "build", "rec:0", "rec:0.1", "rec:0.5"]
+
+
+def _h_object(geom):
+    from aotools.turbulence import slopecovariance as sc
+    g = H_GEOMS[geom]
+    m = [numpy.array([[1, 1], [1, 1]]) for _ in range(3)]
+    return sc.CovarianceMatrix(3, m, 1.0, [0.5, 0.5, 0.5], [0, 0, 90000.], [list(x) for x in g["gspos"]],
+                               [5e-7, 5e-7, 6e-7], 2, list(g["alts"]), [0.2, 0.3], [25., 10.], threads=1)
+
+
+def _evaluate_h(p):
+    """BFS over all histories of {change geometry, rebuild, reconstruct(c)} on ONE CovarianceMatrix object:
+    every reconstructor returned must be bit-identical to the one a fresh object gives for the geometry of
+    the last build and that conditioning."""
+    from mc import statespace as ss
+    o = Out()
+    ref = {}
+    for g in H_GEOMS:
+        for c in (0, 0.1, 0.5):
+            obj = _h_object(g)
+            obj.make_covariance_matrix()
+            ref[(g, c)] = numpy.array(obj.make_tomographic_reconstructor(svd_conditioning=c))
+    o.stat("lib_calls", 2 * len(ref))
+    world = ss.World({"cm": _h_object(p["start"]), "meta": {"geom": p["start"], "built": None}})
+
+    def alphabet(w):
+        return [op for op in H_OPS if not (op.startswith("rec") and w.objects["meta"]["built"] is None)]
+
+    def apply_op(w, op):
+        cm, meta = w.objects["cm"], w.objects["meta"]
+        if op.startswith("geom:"):
+            g = H_GEOMS[op[5:]]
+            cm.gs_positions = [list(x) for x in g["gspos"]]
+            cm.layer_altitudes = list(g["alts"])
+            meta["geom"] = op[5:]
+            return None
+        if op == "build":
+            meta["built"] = meta["geom"]
+            return numpy.array(cm.make_covariance_matrix())
+        return numpy.array(cm.make_tomographic_reconstructor(svd_conditioning=float(op[4:])))
+
+    def on_transition(hist, op, pre, w, result, loop):
+        if op.startswith("rec:"):
+            built = w.objects["meta"]["built"]
+            want = ref[(built, float(op[4:]))]
+            same = result.shape == want.shape and result.tobytes() == want.tobytes()
+            o.check("reconstructor_follows_last_build", same, sub="h=%s" % ",".join(hist + (op,)),
+                    measure=None if result.shape != want.shape else float(numpy.max(numpy.abs(result - want))),
+                    detail={"built_geometry": built})
+    st = ss.bfs(world, alphabet, apply_op, on_transition, p["depth"])
+    o.stat("history_states", st["states"])
+    o.stat("history_transitions", st["transitions"])
+    o.stat("nontrivial", st["transitions"])
+    return o
 
 
 def _maxabs(a):
@@ -248,6 +320,8 @@ def _fn():
 def evaluate(p):
     if p["kind"] == "B":
         return _evaluate_b(p)
+    if p["kind"] == "H":
+        return _evaluate_h(p)
     o = Out()
     fn = _fn()
     fam = family(p["family"])
